@@ -852,6 +852,10 @@ class EventGenerator:
         clazz = var.clazz
         if clazz is None or self.context.is_derived(value, clazz):
             meta = self.context.fetch(value.__class__, namespace)
+            if clazz is not None:
+                # The parser binds the declared class, whatever the element name
+                return meta.target_qname
+
             return self.real_xsi_type(var.qname, meta.target_qname)
 
         raise SerializerError(
